@@ -2,7 +2,8 @@
 import ckprop
 import genck
 import implck
-from ckprop import run_impl, model_view, shrink_candidates  # noqa: F401
+from ckprop import shrink_candidates  # noqa: F401
+from props import C19 as _C19
 
 DESCRIPTION = ("Lean: Props/C09.lean (dispatch of createViolationError; decoration-time validation table). Oracle on the "
                "implementation: what surfaces for each error form, factory called exactly once with exactly the named "
@@ -54,6 +55,13 @@ def _exh():
 
 
 def cases(tier, rng):
+    for t, c in _C19.cases(tier, rng):
+        if c.get('dom') == 'define' and c['what'] in ('error_arg',):
+            yield 'def_' + t, c
+    yield from _ck_cases(tier, rng)
+
+
+def _ck_cases(tier, rng):
     thorough = tier == "thorough"
     for c in _exh():
         yield "exh", c
@@ -68,6 +76,12 @@ def search_cases(rng, hint, n):
 
 
 def project(case, obs):
+    if case.get('dom') == 'define':
+        return _C19.project(case, obs)
+    return _ck_project(case, obs)
+
+
+def _ck_project(case, obs):
     if obs.get("define", ["ok"]) != ["ok"]:
         return ["define-failed"]
     return [implck.loosen(obs["out"]), [ev for ev in obs["trace"] if ev[0] in ("errfac", "msg")]]
@@ -94,6 +108,12 @@ def _surfaced(case, mo, io):
 
 
 def spec(case, mo, io):
+    if case.get('dom') == 'define':
+        return _C19.spec(case, mo, io)
+    return _ck_spec(case, mo, io)
+
+
+def _ck_spec(case, mo, io):
     if io.get("define", ["ok"]) != ["ok"]:
         return ["definition raised %s" % (io["define"],)]
     fails = []
@@ -168,16 +188,34 @@ def spec(case, mo, io):
 
 
 def classify(case, mo, io, fails):
+    if case.get('dom') == 'define':
+        return _C19.classify(case, mo, io, fails)
+    return _ck_classify(case, mo, io, fails)
+
+
+def _ck_classify(case, mo, io, fails):
     return "unclassified"
 
 
 def nontrivial_key(case, mo):
+    if case.get('dom') == 'define':
+        return _C19.nontrivial_key(case, mo)
+    return _ck_nontrivial_key(case, mo)
+
+
+def _ck_nontrivial_key(case, mo):
     if mo["out"][0] != "raise":
         return None
     return ckprop.shape_key(case) + (str(mo["out"][1][:2]),)
 
 
 def stats(case, mo, io, dist):
+    if case.get('dom') == 'define':
+        return _C19.stats(case, mo, io, dist)
+    return _ck_stats(case, mo, io, dist)
+
+
+def _ck_stats(case, mo, io, dist):
     dist["kind:" + case["kind"]] += 1
     dist["async" if case["async"] else "sync"] += 1
     sur = _surfaced(case, mo, io)
@@ -186,3 +224,11 @@ def stats(case, mo, io, dist):
     else:
         dist["surfaced:none"] += 1
     dist["out:" + (str(io["out"][1][0]) if io.get("out") and io["out"][0] == "raise" else "ret")] += 1
+
+
+def run_impl(case):
+    return _C19.run_impl(case)
+
+
+def model_view(case, mo):
+    return _C19.model_view(case, mo)
